@@ -11,10 +11,8 @@ NOTES = {
 }
  # appended notes
 NOTES.update({
- "C20r4A": "not covered: needs the host's RequestTableFn to fail once (fault injection in the callbacks); C20/C09 quantify over histories of tables that follow the regulator's instructions, and the unchanged regulator itself drops the players of a failed table opening",
  "C19A": "no longer a violation on the current tree: since fix fffe38f hand-outs are capped at the room a table has left, so the inflated requirement this change books cannot overfill a table (caught before that repair); its demo passes with the change applied",
  "C19r2B": "no longer a violation on the current tree (caught before fix fffe38f): the stale requirement is still booked - the demo's intermediate assertion on PlayerCount + Required fails - but no table is asked to hold more than its capacity any more",
- "C20r5A": "not covered: needs the host's AssignPlayersFn to fail once (fault injection in the callbacks), see C20r4A",
  "C08r5B": "not covered: the early deal-in needs the table to collapse to one playing seat while the joiner is still waiting, i.e. other players move between the join and the hand in question - outside the hypothesis 'other players staying put' of the deal-in clause; the position clauses still hold after the change",
  "C14r5A": "not covered: Deal() returning a window of the deck changes no value by itself; it shows only when the caller re-uses the deck slice of a finished hand for the next one, or appends to a returned list - aliasing between the caller's own objects, which the monitors (working on the published state and on JSON copies) do not provoke",
 })
@@ -28,8 +26,6 @@ NOTES.update({
  "C10r7B": "not covered: needs a custom ranking table in GameOptions.CombinationPowers (three of a kind above a straight); C03 and C10 quantify over the two shipped tables and the reference evaluator knows exactly those two category orders",
  "C12r7B": "not caught by the C12 check, caught by the C11 check (C11/missing-raise): the change takes the raise off the offer of a player who holds the minimum bet at the start of the round; C12 judges raise requests that are on offer (a request that is not on offer is refused on the unchanged tree as well - C11 states who is offered a raise)",
  "C13r7A": "not covered: needs the antes to be collected seat by seat through Player handles and the hand advanced with a manual EmitEvent(AntePaid) - the engine's internal building blocks, outside the operation alphabet (DESIGN 3.1)",
- "C19r7B": "not covered: needs the host's AssignPlayersFn to fail once (fault injection in the callbacks), see C20r4A",
- "C20r7A": "not covered: needs the host's AssignPlayersFn to fail once (fault injection in the callbacks), see C20r4A",
 })
 NOTES.update({
  "C03r8A": "not covered: the stale entry becomes valid again only after exactly 65,536 changes of the ranking-table object with the same five cards untouched in between and the other table at the end; the sweeps change tables a few times per hand but never line up a hand with a multiple of 65,536",
@@ -43,9 +39,11 @@ NOTES.update({
 NOTES.update({
  "C04r9A": "not a violation as C04/C05 are read here: on a table without any blind where at most one seat has chips left after the antes, the pre-flop round is closed without being opened. Nobody acts out of turn, and C05 itself says that no betting round is opened when fewer than two players still have chips",
  "C04r9B": "not a violation as C04/C05 are read here: heads-up with the button all-in and the big blind level or ahead, the round is closed without asking the all-in button to pass and without the big blind's option; fewer than two players have chips, so no betting round needs to be opened (C05), and nobody acts out of turn (C04)",
- "C09r9B": "not covered: the swallowed registration is a re-entry sent before the table has reported the player's elimination, i.e. a registration of a player who is still counted at a table; the tournament histories re-enter players after their elimination was reported",
  "C13r9A": "caught by the thorough tier of C16 (C16/total, 1 hand in 300,000), not by the quick tier of C13: the shortcut publishes one pot instead of side pots only when the first and last seat are short of the ante by the same amount and the others' antes average exactly that amount; the totals C13 compares still add up",
  "C19r9A": "caught by the thorough tier of C19 (C19/above-capacity, 8 histories in 300,000), not by the quick tier: needs a tournament in which nobody ever registers while the competition is pending, plus a hold during which a table is topped up and released players arrive",
+})
+NOTES.update({
+ "C08r10A": "not covered: as C08r5B - the reserved newcomer's seat is opened by the collapse to one playing seat, i.e. other players leave between his join and the hand in question, outside the hypothesis 'other players staying put' of the deal-in clause; the hand-by-hand waiting watch cannot see it either, because the change flips the very flag (closed seat) that says who is waiting",
 })
 for _k in ("C04r4B", "C04r6B", "C04r7A"):
     NOTES[_k] = "still caught; its demonstration no longer fails on the current tree: it relied on player handles of a previous, bigger table surviving in a re-used game object, which the repair of D11 (9a37c80, ApplyOptions drops them) removed"
